@@ -1,0 +1,154 @@
+//go:build verif
+
+// Verification hooks (model-checking harness under /verif). Compiled only with -tags verif;
+// nothing here is reachable from the normal build. Add-only: no existing line is changed.
+
+package mcp
+
+import (
+	"context"
+	"encoding/json"
+	"io"
+	"os/exec"
+	"reflect"
+	"time"
+
+	"github.com/getkin/kin-openapi/openapi3"
+	"trpc.group/trpc-go/trpc-mcp-go/internal/retry"
+	"trpc.group/trpc-go/trpc-mcp-go/internal/schema"
+)
+
+// VerifServeStdio runs the stdio server loop of srv over caller supplied streams instead of
+// os.Stdin / os.Stdout (same code path as StdioServer.StartWithContext).
+func VerifServeStdio(ctx context.Context, srv *StdioServer, in io.Reader, out io.Writer) error {
+	transport := newStdioTransport(srv.internal, withStdioErrorLogger(srv.logger), withStdioContextFunc(srv.contextFunc))
+	ctx, cancel := context.WithCancel(ctx)
+	defer cancel()
+	return transport.listen(ctx, in, out)
+}
+
+// VerifNewStdioClientOverPipes builds a StdioClient whose "child process" is the given set of
+// pipes. The returned childExited function has the effect processWatcher has when the child exits.
+func VerifNewStdioClientOverPipes(stdin io.WriteCloser, stdout, stderr io.ReadCloser, timeout time.Duration,
+	clientInfo Implementation, options ...StdioClientOption) (*StdioClient, func(), error) {
+	c, err := NewStdioClient(StdioTransportConfig{ServerParams: StdioServerParameters{Command: "verif-pipes"}, Timeout: timeout}, clientInfo, options...)
+	if err != nil {
+		return nil, nil, err
+	}
+	t := c.transport
+	t.process = &exec.Cmd{} // non-nil so that no process is started; Process stays nil
+	t.stdin, t.stdout, t.stderr = stdin, stdout, stderr
+	t.encoder = json.NewEncoder(stdin)
+	t.decoder = json.NewDecoder(stdout)
+	go t.readLoop()
+	go t.stderrLoop()
+	childExited := func() {
+		if !t.closed.Load() {
+			t.cancel()
+		}
+	}
+	return c, childExited, nil
+}
+
+// VerifPending reports the sizes of the internal pending/rendezvous tables of a server or client.
+func VerifPending(obj interface{}) map[string]int {
+	out := map[string]int{}
+	switch o := obj.(type) {
+	case *Server:
+		h := o.httpHandler
+		h.responseManager.mutex.RLock()
+		out["serverRequests"] = len(h.responseManager.pendingRequests)
+		h.responseManager.mutex.RUnlock()
+		h.getSSEConnectionsLock.RLock()
+		out["getStreams"] = len(h.getSSEConnections)
+		h.getSSEConnectionsLock.RUnlock()
+		lm := o.mcpHandler.lifecycleManager
+		lm.mu.RLock()
+		out["lifecycleStates"] = len(lm.sessionStates)
+		lm.mu.RUnlock()
+	case *SSEServer:
+		o.responsesMu.RLock()
+		out["serverRequests"] = len(o.responses)
+		o.responsesMu.RUnlock()
+		n := 0
+		o.sessions.Range(func(k, v interface{}) bool { n++; return true })
+		out["sessions"] = n
+	case *StdioServer:
+		o.responsesMu.RLock()
+		out["serverRequests"] = len(o.responses)
+		o.responsesMu.RUnlock()
+	case *Client:
+		switch t := o.transport.(type) {
+		case *sseClientTransport:
+			t.responsesMu.RLock()
+			out["pending"] = len(t.responses)
+			t.responsesMu.RUnlock()
+		case *streamableHTTPClientTransport:
+			out["pending"] = 0
+		}
+	case *StdioClient:
+		o.transport.pendingMutex.RLock()
+		out["pending"] = len(o.transport.pendingRequests)
+		o.transport.pendingMutex.RUnlock()
+	}
+	return out
+}
+
+// VerifGetStreamSessions lists the session ids that currently own a GET listening stream.
+func VerifGetStreamSessions(s *Server) []string {
+	h := s.httpHandler
+	h.getSSEConnectionsLock.RLock()
+	defer h.getSSEConnectionsLock.RUnlock()
+	var ids []string
+	for id := range h.getSSEConnections {
+		ids = append(ids, id)
+	}
+	return ids
+}
+
+// VerifSeedRequestID makes the next request id of a client n+1.
+func VerifSeedRequestID(c interface{}, n int64) {
+	switch o := c.(type) {
+	case *Client:
+		o.requestID.Store(n)
+	case *StdioClient:
+		o.requestID.Store(n)
+	}
+}
+
+// VerifRetryConfig mirrors internal/retry.Config.
+type VerifRetryConfig = retry.Config
+
+// VerifRetryExecute re-exports internal/retry.Execute.
+func VerifRetryExecute(ctx context.Context, op func() error, cfg *VerifRetryConfig, name string) error {
+	return retry.Execute(ctx, op, cfg, name)
+}
+
+// VerifIsRetryable re-exports internal/retry.IsRetryableError.
+func VerifIsRetryable(err error) bool { return retry.IsRetryableError(err) }
+
+// VerifRetryValidate re-exports internal/retry.Config.Validate.
+func VerifRetryValidate(c VerifRetryConfig) VerifRetryConfig { return c.Validate() }
+
+// VerifClientRetryConfig returns the (validated) retry configuration a client ended up with.
+func VerifClientRetryConfig(c *Client) *VerifRetryConfig { return c.retryConfig }
+
+// VerifSchemaForType runs the three schema generators for a run-time type
+// (style: 0 inline, 1 $defs, 2 nested refs — the values of schema.RefStyle).
+func VerifSchemaForType(t reflect.Type, style int) *openapi3.Schema {
+	return schema.VerifConvertType(t, schema.ReferenceStyle(style))
+}
+
+// VerifSessionContext returns a context carrying the client session sid, i.e. what a
+// ServerNotificationHandler receives for a notification of that session (used to call ListRoots).
+func VerifSessionContext(s *Server, sid string) context.Context {
+	ctx := context.Background()
+	if s.httpHandler.sessionManager == nil {
+		return ctx
+	}
+	sess, ok := s.httpHandler.sessionManager.getSession(sid)
+	if !ok {
+		return ctx
+	}
+	return withClientSession(setSessionToContext(ctx, sess), sess)
+}
